@@ -18,13 +18,32 @@ struct Case {
     /// what the document says, as the generator wrote it (payload of every operation; None when the
     /// text was mutated or written by hand): the parser must return exactly this
     intended: Option<Vec<PatchOp>>,
+    /// `intended` carries the paths as the document spells them (trimmed); false for older corpus
+    /// entries that recorded the payload only.  When true the oracle interprets `intended` and never
+    /// looks at what the implementation's parser returned.
+    intended_paths: bool,
 }
 
 // ------------------------------------------------------------------ independent interpreter
+/// Where the bytes of a file come from: a file of the initial workspace that has only been updated /
+/// moved since (no add, no delete).  Line-ending style and trailing newline of such a file are the
+/// origin's, however many sections touched it and whatever its name is now.
+#[derive(Clone, Debug)]
+struct Lineage {
+    origin: Comps,
+    updated: bool,
+    /// no inserted line carries a `\r`
+    clean: bool,
+    /// an intermediate text had no line terminator at all (the style is re-detected from nothing)
+    exempt: bool,
+    /// a text without final newline whose last remaining line is empty renders with a final newline
+    nl_exempt: bool,
+}
 #[derive(Clone, Default)]
 struct Sim {
     files: BTreeMap<Comps, Vec<u8>>,
     dirs: BTreeSet<Comps>,
+    lineage: BTreeMap<Comps, Lineage>,
 }
 impl Sim {
     fn from_listing(l: &Listing) -> Sim {
@@ -36,6 +55,7 @@ impl Sim {
                 }
                 Node::File(b) => {
                     s.files.insert(c.clone(), b.clone());
+                    s.lineage.insert(c.clone(), Lineage { origin: c.clone(), updated: false, clean: true, exempt: false, nl_exempt: false });
                 }
             }
         }
@@ -121,11 +141,13 @@ fn spec_op(s: &mut Sim, op: &PatchOp) -> Result<(), ()> {
                 return Err(());
             }
             s.mk_ancestors(&c);
+            s.lineage.remove(&c);
             s.files.insert(c, content.as_bytes().to_vec());
             Ok(())
         }
         PatchOp::DeleteFile { path } => {
             let c = norm(&p2s(path)).ok_or(())?;
+            s.lineage.remove(&c);
             s.files.remove(&c).map(|_| ()).ok_or(())
         }
         PatchOp::UpdateFile { path, moved_to, hunks } => {
@@ -133,7 +155,19 @@ fn spec_op(s: &mut Sim, op: &PatchOp) -> Result<(), ()> {
             let b = s.files.get(&c).cloned().ok_or(())?;
             let text = String::from_utf8(b).map_err(|_| ())?;
             let hs: Vec<(Vec<String>, Vec<String>)> = hunks.iter().map(|h| (h.before.clone(), h.after.clone())).collect();
-            let out = spec_hunks(&text, &hs).ok_or(())?;
+            let (out_lines, out) = spec_hunks_lines(&text, &hs).ok_or(())?;
+            if let Some(l) = s.lineage.get_mut(&c) {
+                if l.updated && !text.contains('\n') {
+                    l.exempt = true;
+                }
+                l.updated = true;
+                if hunks.iter().any(|h| h.after.iter().any(|x| x.contains('\r'))) {
+                    l.clean = false;
+                }
+                if !text.ends_with('\n') && out_lines.last().map(|x| x.is_empty()).unwrap_or(true) {
+                    l.nl_exempt = true;
+                }
+            }
             s.files.insert(c.clone(), out.clone().into_bytes());
             if let Some(m) = moved_to {
                 let t = norm(&p2s(m)).ok_or(())?;
@@ -142,7 +176,10 @@ fn spec_op(s: &mut Sim, op: &PatchOp) -> Result<(), ()> {
                 }
                 s.mk_ancestors(&t);
                 s.files.remove(&c);
-                s.files.insert(t, out.into_bytes());
+                s.files.insert(t.clone(), out.into_bytes());
+                if let Some(l) = s.lineage.remove(&c) {
+                    s.lineage.insert(t, l);
+                }
             }
             Ok(())
         }
@@ -190,6 +227,136 @@ fn style(t: &[u8]) -> Style {
     } else {
         Style::Other
     }
+}
+
+// ------------------------------------------------------------------ the oracle
+/// The property, checked on what the implementation did, without the model and — whenever the
+/// generator recorded the operations it wrote (`intended_paths`) — without the implementation's
+/// parser: the expectation is computed by `spec_op` (this file) from the recorded operations.
+///   outcome Ok  : every operation is performable in order, the files equal the in-order result, the
+///                 report equals the named paths, line-ending style / trailing newline of every file
+///                 that descends from an initial file through updates and moves only are the origin's;
+///   outcome Err : every file has its old bytes and no new file remains; and the in-order interpreter
+///                 refuses some operation too (success iff every operation is performable:
+///                 c12_success_complete / c12_fails_iff_some_op_fails).
+fn oracle(c: &Case, before: &Listing, after: &Listing, outcome: &Result<Vec<String>, ()>) -> Option<(String, String)> {
+    let fb = files_only(before);
+    let fa = files_only(after);
+    let parsed = Patch::parse(&c.patch);
+    let ops: Option<Vec<PatchOp>> = match (&c.intended, c.intended_paths) {
+        (Some(v), true) => Some(v.clone()),
+        _ => parsed.as_ref().ok().map(|p| p.ops().to_vec()),
+    };
+    // what performing the operations in order gives: Ok(final state) or the index of the first refused one
+    let spec: Option<Result<Sim, usize>> = ops.as_ref().map(|ops| {
+        let mut sim = Sim::from_listing(before);
+        for (i, op) in ops.iter().enumerate() {
+            if spec_op(&mut sim, op).is_err() {
+                return Err(i);
+            }
+        }
+        Ok(sim)
+    });
+    let mut viol: Option<(String, String)> = None;
+    match outcome {
+        Err(()) => {
+            if fb != fa {
+                let mut what = String::from("failed apply_patch changed files:");
+                let mut class = "not_atomic".to_string();
+                for (p, b) in &fb {
+                    match fa.get(p) {
+                        None => {
+                            if after.get(p) == Some(&Node::Dir) {
+                                class = "atomicity_file_replaced_by_dir".into();
+                                what += &format!(" {} was a file and is now a directory;", show_comps(p));
+                            } else {
+                                what += &format!(" {} lost;", show_comps(p));
+                            }
+                        }
+                        Some(b2) if b2 != b => what += &format!(" {} bytes differ;", show_comps(p)),
+                        _ => {}
+                    }
+                }
+                for p in fa.keys() {
+                    if !fb.contains_key(p) {
+                        what += &format!(" new file {} remains;", show_comps(p));
+                    }
+                }
+                viol = Some((what, class));
+            } else if let Some(Ok(_)) = &spec {
+                let n = ops.as_ref().map(|o| o.len()).unwrap_or(0);
+                viol = Some((format!("apply_patch refused a patch whose {n} operations are all performable in order (the in-order interpreter succeeds; a later section did not see what the earlier ones had left)"), "refused_performable_patch".into()));
+            }
+        }
+        Ok(changed) => match (&ops, &spec) {
+            (None, _) | (_, None) => viol = Some(("apply_patch succeeded on a patch Patch::parse rejects".into(), "ok_unparsable".into())),
+            (Some(_), Some(Err(i))) => {
+                viol = Some((format!("apply_patch succeeded although operation {i} is not performable after the ones before it (spec interpreter)"), "ok_but_spec_fails".into()));
+            }
+            (Some(ops), Some(Ok(sim))) => {
+                if sim.files != fa {
+                    let mut what = String::from("workspace after a successful apply differs from performing the ops in order:");
+                    for (p, b) in &sim.files {
+                        match fa.get(p) {
+                            None => what += &format!(" {} missing;", show_comps(p)),
+                            Some(b2) if b2 != b => what += &format!(" {} holds {:?}, in-order result {:?};", show_comps(p), String::from_utf8_lossy(b2), String::from_utf8_lossy(b)),
+                            _ => {}
+                        }
+                    }
+                    for p in fa.keys() {
+                        if !sim.files.contains_key(p) {
+                            what += &format!(" {} should not exist;", show_comps(p));
+                        }
+                    }
+                    what.truncate(600);
+                    viol = Some((what, "wrong_result".into()));
+                } else if *changed != named_paths(ops) {
+                    viol = Some((format!("changed_files {:?} != named paths {:?}", changed, named_paths(ops)), "wrong_changed_files".into()));
+                } else {
+                    // line endings / trailing newline: every file that descends from an initial file through
+                    // updates and moves only, whatever the number of sections and its final name
+                    for (k, l) in &sim.lineage {
+                        if !l.updated || !l.clean || l.exempt {
+                            continue;
+                        }
+                        let (Some(b0), Some(b1)) = (fb.get(&l.origin), fa.get(k)) else { continue };
+                        let st = style(b0);
+                        if st == Style::Other || b1.is_empty() {
+                            continue;
+                        }
+                        let via = if *k == l.origin { String::new() } else { format!(" (was {})", show_comps(&l.origin)) };
+                        if (st == Style::Lf && b1.contains(&13)) || (st == Style::Crlf && b0.contains(&10) && style(b1) != Style::Crlf && b1.contains(&10)) {
+                            viol = Some((format!("line-ending style of {}{via} changed", show_comps(k)), "line_ending_changed".into()));
+                        }
+                        // without a final newline the rendering of a line list whose last line is empty
+                        // necessarily ends in a newline (c12_no_final_newline_not_always_kept_refuted):
+                        // only a non-empty last line can witness a changed flag
+                        let had_nl = b0.ends_with(b"\n");
+                        let now_nl = b1.ends_with(b"\n");
+                        if !b0.is_empty() && ((had_nl && !now_nl) || (!had_nl && now_nl && !l.nl_exempt)) {
+                            viol = Some((format!("trailing newline of {}{via} changed", show_comps(k)), "trailing_newline_changed".into()));
+                        }
+                    }
+                }
+            }
+        },
+    }
+    // ---- the parser must return what the document says (independent of the implementation's own parse)
+    if viol.is_none() {
+        if let Some(want) = &c.intended {
+            let same = |a: &PatchOp, b: &PatchOp| same_payload(a, b) && (!c.intended_paths || same_paths(a, b));
+            match &parsed {
+                Err(e) => viol = Some((format!("a well-formed generated document was rejected: {e}"), "parse_rejects_wellformed".into())),
+                Ok(p) => {
+                    if p.ops().len() != want.len() || !p.ops().iter().zip(want.iter()).all(|(a, b)| same(a, b)) {
+                        let i = p.ops().iter().zip(want.iter()).position(|(a, b)| !same(a, b)).unwrap_or(want.len().min(p.ops().len()));
+                        viol = Some((format!("the parser returned other operations than the document states (operation {i}: got {:?}, the text says {:?})", p.ops().get(i), want.get(i)), "parse_differs_from_document".into()));
+                    }
+                }
+            }
+        }
+    }
+    viol
 }
 
 // ------------------------------------------------------------------ running the implementation
@@ -242,102 +409,13 @@ fn run_impl(rt: &tokio::runtime::Runtime, c: &Case) -> Obs {
     if exit != want_exit || (r.is_ok() && tch.as_ref() != Some(&changed)) {
         viol = Some((format!("apply_patch tool exit {exit} / changed {tch:?} vs library {want_exit} / {changed:?}"), "tool_differs".into()));
     }
-    // ---- independent oracle
-    let fb = files_only(&before);
-    let fa = files_only(&after);
-    match &r {
-        Err(_) => {
-            if fb != fa {
-                let mut what = String::from("failed apply_patch changed files:");
-                let mut class = "not_atomic".to_string();
-                for (p, b) in &fb {
-                    match fa.get(p) {
-                        None => {
-                            if after.get(p) == Some(&Node::Dir) {
-                                class = "atomicity_file_replaced_by_dir".into();
-                                what += &format!(" {} was a file and is now a directory;", show_comps(p));
-                            } else {
-                                what += &format!(" {} lost;", show_comps(p));
-                            }
-                        }
-                        Some(b2) if b2 != b => what += &format!(" {} bytes differ;", show_comps(p)),
-                        _ => {}
-                    }
-                }
-                for p in fa.keys() {
-                    if !fb.contains_key(p) {
-                        what += &format!(" new file {} remains;", show_comps(p));
-                    }
-                }
-                viol = Some((what, class));
-            }
-        }
-        Ok(res) => match Patch::parse(&c.patch) {
-            Err(_) => viol = Some(("apply_patch succeeded on a patch Patch::parse rejects".into(), "ok_unparsable".into())),
-            Ok(p) => {
-                let mut sim = Sim::from_listing(&before);
-                let mut spec_ok = true;
-                for op in p.ops() {
-                    if spec_op(&mut sim, op).is_err() {
-                        spec_ok = false;
-                        break;
-                    }
-                }
-                if !spec_ok {
-                    viol = Some(("apply_patch succeeded although an operation is not performable (spec interpreter)".into(), "ok_but_spec_fails".into()));
-                } else if sim.files != fa {
-                    viol = Some(("workspace after a successful apply differs from performing the ops in order".into(), "wrong_result".into()));
-                } else if res.changed_files != named_paths(p.ops()) {
-                    viol = Some((format!("changed_files {:?} != named paths {:?}", res.changed_files, named_paths(p.ops())), "wrong_changed_files".into()));
-                } else {
-                    // line endings / trailing newline of updated files (only updates that are not moved and touched once)
-                    for op in p.ops() {
-                        if let PatchOp::UpdateFile { path, moved_to: None, hunks } = op {
-                            let Some(k) = norm(&p2s(path)) else { continue };
-                            let times = p.ops().iter().filter(|o| match o {
-                                PatchOp::AddFile { path: q, .. } | PatchOp::DeleteFile { path: q } | PatchOp::UpdateFile { path: q, .. } => norm(&p2s(q)).as_ref() == Some(&k),
-                            }).count();
-                            let moved_onto = p.ops().iter().any(|o| matches!(o, PatchOp::UpdateFile { moved_to: Some(m), .. } if norm(&p2s(m)).as_ref() == Some(&k)));
-                            if times != 1 || moved_onto {
-                                continue;
-                            }
-                            let (Some(b0), Some(b1)) = (fb.get(&k), fa.get(&k)) else { continue };
-                            let clean_hunks = hunks.iter().all(|h| h.after.iter().all(|l| !l.contains('\r')));
-                            let st = style(b0);
-                            if clean_hunks && st != Style::Other && !b1.is_empty() {
-                                let had_nl = b0.ends_with(b"\n");
-                                if (st == Style::Lf && b1.contains(&13)) || (st == Style::Crlf && b0.contains(&10) && style(b1) != Style::Crlf && b1.contains(&10)) {
-                                    viol = Some((format!("line-ending style of {} changed", show_comps(&k)), "line_ending_changed".into()));
-                                }
-                                // without a final newline the rendering of a line list whose last line is
-                                // empty necessarily ends in a newline (c12_no_final_newline_not_always_kept_refuted):
-                                // only a non-empty last line can witness a changed flag
-                                let hs: Vec<(Vec<String>, Vec<String>)> = hunks.iter().map(|h| (h.before.clone(), h.after.clone())).collect();
-                                let last_nonempty = std::str::from_utf8(b0).ok().and_then(|t| spec_hunks_lines(t, &hs)).map(|(l, _)| l.last().map(|x| !x.is_empty()).unwrap_or(false)).unwrap_or(false);
-                                let now_nl = b1.ends_with(b"\n");
-                                if !b0.is_empty() && ((had_nl && !now_nl) || (!had_nl && now_nl && last_nonempty)) {
-                                    viol = Some((format!("trailing newline of {} changed", show_comps(&k)), "trailing_newline_changed".into()));
-                                }
-                            }
-                        }
-                    }
-                }
-            }
-        },
-    }
-    // ---- the parser must return what the document says (independent of the implementation's own parse)
-    if viol.is_none() {
-        if let Some(want) = &c.intended {
-            match Patch::parse(&c.patch) {
-                Err(e) => viol = Some((format!("a well-formed generated document was rejected: {e}"), "parse_rejects_wellformed".into())),
-                Ok(p) => {
-                    if p.ops().len() != want.len() || !p.ops().iter().zip(want.iter()).all(|(a, b)| same_payload(a, b)) {
-                        let i = p.ops().iter().zip(want.iter()).position(|(a, b)| !same_payload(a, b)).unwrap_or(want.len().min(p.ops().len()));
-                        viol = Some((format!("the parser returned other operations than the document states (operation {i}: got {:?}, the text says {:?})", p.ops().get(i), want.get(i)), "parse_differs_from_document".into()));
-                    }
-                }
-            }
-        }
+    // ---- independent oracle (never overrides an earlier finding of the tool comparison)
+    let outcome: Result<Vec<String>, ()> = match &r {
+        Ok(res) => Ok(res.changed_files.clone()),
+        Err(_) => Err(()),
+    };
+    if let Some(v) = oracle(c, &before, &after, &outcome) {
+        viol = Some(v);
     }
     Obs { code, changed, before, after, viol }
 }
@@ -424,7 +502,96 @@ fn path_variant(r: &mut Rng, p: &str) -> String {
         _ => p.to_string(),
     }
 }
-/// lines of one op derived from the simulated state so that it applies
+/// the path as the parser must return it: the document's spelling without the surrounding blanks
+fn doc_path(spelled: &str) -> std::path::PathBuf {
+    spelled.trim().into()
+}
+/// 1-2 hunks (document lines pushed to `out`) derived from `lines` so that they apply to that text
+fn gen_hunks(r: &mut Rng, lines: &[String], out: &mut Vec<String>) -> Vec<rip_workspace::PatchHunk> {
+    let nh = r.range(1, 3);
+    let mut pos = 0usize;
+    let mut hunks: Vec<rip_workspace::PatchHunk> = vec![];
+    for _ in 0..nh {
+        if r.chance(1, 3) {
+            out.push(if r.chance(1, 2) { "@@".into() } else { "@@ fn main()".into() });
+        } else if !hunks.is_empty() {
+            out.push("@@".into());
+        }
+        let mut before = vec![];
+        let mut after = vec![];
+        let prev_after: Vec<String> = hunks.last().map(|h: &rip_workspace::PatchHunk| h.after.clone()).unwrap_or_default();
+        if !prev_after.is_empty() && r.chance(1, 5) {
+            // context taken from the lines the previous hunk inserted: they lie before the cursor, so the
+            // search must not find them there (it may find the same text further down)
+            let k = r.range(1, prev_after.len().min(2) as u64) as usize;
+            for l in &prev_after[prev_after.len() - k..] {
+                out.push(format!(" {l}"));
+                before.push(l.clone());
+                after.push(l.clone());
+            }
+            let w = r.pick(&WORDS[..]).to_string();
+            out.push(format!("+{w}"));
+            after.push(w);
+        } else if lines.is_empty() || r.chance(1, 7) {
+            // pure append hunk
+            for _ in 0..r.range(1, 2) {
+                let w = r.pick(&WORDS[..]).to_string();
+                out.push(format!("+{w}"));
+                after.push(w);
+            }
+        } else {
+            let start = if pos < lines.len() { r.range(pos as u64, (lines.len() - 1) as u64) as usize } else { lines.len() - 1 };
+            let len = r.range(1, 3).min((lines.len() - start) as u64) as usize;
+            for l in &lines[start..start + len] {
+                match r.below(4) {
+                    0 => {
+                        out.push(format!("-{l}"));
+                        before.push(l.clone());
+                    }
+                    1 => {
+                        out.push(format!("-{l}"));
+                        before.push(l.clone());
+                        let w = r.pick(&WORDS[..]).to_string();
+                        out.push(format!("+{w}"));
+                        after.push(w);
+                    }
+                    _ => {
+                        out.push(format!(" {l}"));
+                        before.push(l.clone());
+                        after.push(l.clone());
+                    }
+                }
+            }
+            if r.chance(1, 3) {
+                let w = r.pick(&WORDS[..]).to_string();
+                out.push(format!("+{w}"));
+                after.push(w);
+            }
+            pos = start + len;
+        }
+        hunks.push(rip_workspace::PatchHunk { before, after });
+    }
+    hunks
+}
+/// hunks written for `text` that do apply to it (in-order, cursor-forward): the free generator above also
+/// produces context behind the cursor on purpose; here it is asked again until the hunks apply
+fn gen_hunks_applying(r: &mut Rng, text: &str, out: &mut Vec<String>) -> Vec<rip_workspace::PatchHunk> {
+    let lines = text_lines(text);
+    for _ in 0..8 {
+        let mut tmp = vec![];
+        let hs = gen_hunks(r, &lines, &mut tmp);
+        let pairs: Vec<(Vec<String>, Vec<String>)> = hs.iter().map(|h| (h.before.clone(), h.after.clone())).collect();
+        if spec_hunks(text, &pairs).is_some() {
+            out.extend(tmp);
+            return hs;
+        }
+    }
+    let w = r.pick(&WORDS[..]).to_string();
+    out.push(format!("+{w}"));
+    vec![rip_workspace::PatchHunk { before: vec![], after: vec![w] }]
+}
+/// lines of one op derived from the simulated state so that it applies; the returned operation carries
+/// the paths as the document spells them
 fn gen_op(r: &mut Rng, sim: &mut Sim) -> (Vec<String>, PatchOp) {
     let existing: Vec<Comps> = sim.files.keys().filter(|c| c.first().map(|x| x.as_slice()) != Some(b".rip")).cloned().collect();
     let pick_existing = |r: &mut Rng| -> Option<String> { if existing.is_empty() { None } else { Some(show_comps(r.pick(&existing))) } };
@@ -438,7 +605,8 @@ fn gen_op(r: &mut Rng, sim: &mut Sim) -> (Vec<String>, PatchOp) {
             2 => "d".to_string(),
             _ => r.pick(&PATHS[..]).to_string(),
         };
-        out.push(format!("*** Add File: {}", path_variant(r, &p)));
+        let pv = path_variant(r, &p);
+        out.push(format!("*** Add File: {pv}"));
         let n = r.range(0, 3);
         let mut content = String::new();
         for _ in 0..n {
@@ -450,98 +618,306 @@ fn gen_op(r: &mut Rng, sim: &mut Sim) -> (Vec<String>, PatchOp) {
         if content == "\n" {
             content.clear();
         }
-        let op = PatchOp::AddFile { path: p.into(), content };
+        let op = PatchOp::AddFile { path: doc_path(&pv), content };
         let _ = spec_op(sim, &op);
         return (out, op);
     } else if kind < 5 {
         let p = if r.chance(1, 6) { "missing.txt".to_string() } else { pick_existing(r).unwrap() };
-        out.push(format!("*** Delete File: {}", path_variant(r, &p)));
-        let op = PatchOp::DeleteFile { path: p.into() };
+        let pv = path_variant(r, &p);
+        out.push(format!("*** Delete File: {pv}"));
+        let op = PatchOp::DeleteFile { path: doc_path(&pv) };
         let _ = spec_op(sim, &op);
         return (out, op);
     } else {
         let p = if r.chance(1, 10) { "missing.txt".to_string() } else { pick_existing(r).unwrap() };
-        out.push(format!("*** Update File: {}", path_variant(r, &p)));
+        let pv = path_variant(r, &p);
+        out.push(format!("*** Update File: {pv}"));
         let mv = if r.chance(1, 4) {
             let q = match r.below(5) {
                 0 => pick_existing(r).unwrap(),
                 1 => p.clone(),
                 _ => r.pick(&PATHS[..]).to_string(),
             };
-            out.push(format!("*** Move to: {}", path_variant(r, &q)));
-            Some(q)
+            let qv = path_variant(r, &q);
+            out.push(format!("*** Move to: {qv}"));
+            Some(doc_path(&qv))
         } else {
             None
         };
         let cur = norm(&p).and_then(|c| sim.files.get(&c).cloned()).unwrap_or_default();
         let text = String::from_utf8_lossy(&cur).to_string();
         let lines = text_lines(&text);
-        let nh = r.range(1, 3);
-        let mut pos = 0usize;
-        let mut hunks = vec![];
-        for _ in 0..nh {
-            if r.chance(1, 3) {
-                out.push(if r.chance(1, 2) { "@@".into() } else { "@@ fn main()".into() });
-            } else if !hunks.is_empty() {
-                out.push("@@".into());
-            }
-            let mut before = vec![];
-            let mut after = vec![];
-            let prev_after: Vec<String> = hunks.last().map(|h: &rip_workspace::PatchHunk| h.after.clone()).unwrap_or_default();
-            if !prev_after.is_empty() && r.chance(1, 5) {
-                // context taken from the lines the previous hunk inserted: they lie before the cursor, so the
-                // search must not find them there (it may find the same text further down)
-                let k = r.range(1, prev_after.len().min(2) as u64) as usize;
-                for l in &prev_after[prev_after.len() - k..] {
-                    out.push(format!(" {l}"));
-                    before.push(l.clone());
-                    after.push(l.clone());
-                }
-                let w = r.pick(&WORDS[..]).to_string();
-                out.push(format!("+{w}"));
-                after.push(w);
-            } else if lines.is_empty() || r.chance(1, 7) {
-                // pure append hunk
-                for _ in 0..r.range(1, 2) {
-                    let w = r.pick(&WORDS[..]).to_string();
-                    out.push(format!("+{w}"));
-                    after.push(w);
-                }
-            } else {
-                let start = if pos < lines.len() { r.range(pos as u64, (lines.len() - 1) as u64) as usize } else { lines.len() - 1 };
-                let len = r.range(1, 3).min((lines.len() - start) as u64) as usize;
-                for l in &lines[start..start + len] {
-                    match r.below(4) {
-                        0 => {
-                            out.push(format!("-{l}"));
-                            before.push(l.clone());
-                        }
-                        1 => {
-                            out.push(format!("-{l}"));
-                            before.push(l.clone());
-                            let w = r.pick(&WORDS[..]).to_string();
-                            out.push(format!("+{w}"));
-                            after.push(w);
-                        }
-                        _ => {
-                            out.push(format!(" {l}"));
-                            before.push(l.clone());
-                            after.push(l.clone());
-                        }
-                    }
-                }
-                if r.chance(1, 3) {
-                    let w = r.pick(&WORDS[..]).to_string();
-                    out.push(format!("+{w}"));
-                    after.push(w);
-                }
-                pos = start + len;
-            }
-            hunks.push(rip_workspace::PatchHunk { before, after });
-        }
-        let op = PatchOp::UpdateFile { path: p.into(), moved_to: mv.map(|m| m.into()), hunks };
+        let hunks = if r.chance(1, 2) { gen_hunks_applying(r, &text, &mut out) } else { gen_hunks(r, &lines, &mut out) };
+        let op = PatchOp::UpdateFile { path: doc_path(&pv), moved_to: mv, hunks };
         let _ = spec_op(sim, &op);
         (out, op)
+    }
+}
+
+// ---- the same-path family: several sections of ONE patch on the same few paths — moved away and
+// back, re-created after a delete or a move, chains P->Q->P, updates on both names of a moved file.
+// Every section is derived from the simulated workspace at that point of the patch (so performing the
+// operations in order succeeds), or — `stale` — from a text the path held EARLIER in the same patch
+// (so in-order application must refuse it unless the context happens to be there too).
+#[derive(Clone, Copy, Debug)]
+enum Step {
+    Upd(usize, Option<usize>),
+    Add(usize),
+    Del(usize),
+}
+const CHAIN_TEMPLATES: [&[Step]; 14] = [
+    &[Step::Upd(0, Some(1)), Step::Add(0), Step::Upd(0, None)],
+    &[Step::Upd(0, Some(1)), Step::Upd(2, Some(0)), Step::Upd(0, None)],
+    &[Step::Upd(0, Some(1)), Step::Upd(1, Some(0)), Step::Upd(0, None)],
+    &[Step::Upd(0, Some(1)), Step::Upd(1, None), Step::Add(0), Step::Upd(0, None), Step::Upd(1, None)],
+    &[Step::Del(0), Step::Add(0), Step::Upd(0, None)],
+    &[Step::Upd(0, None), Step::Del(0), Step::Add(0), Step::Upd(0, None)],
+    &[Step::Upd(0, Some(1)), Step::Upd(1, Some(2)), Step::Upd(2, Some(0)), Step::Upd(0, None)],
+    &[Step::Add(0), Step::Upd(0, Some(1)), Step::Add(0), Step::Upd(0, None), Step::Upd(1, None)],
+    &[Step::Upd(0, None), Step::Upd(0, Some(1)), Step::Add(0), Step::Del(0), Step::Add(0), Step::Upd(0, None)],
+    &[Step::Upd(0, Some(1)), Step::Add(0), Step::Upd(0, Some(2)), Step::Add(0), Step::Upd(0, None)],
+    &[Step::Upd(0, Some(1)), Step::Del(1), Step::Add(0), Step::Upd(0, Some(1)), Step::Upd(1, None)],
+    &[Step::Upd(0, None), Step::Upd(0, None), Step::Upd(0, Some(1)), Step::Upd(1, None), Step::Upd(1, Some(0)), Step::Upd(0, None)],
+    &[Step::Upd(0, Some(1)), Step::Add(0), Step::Del(0), Step::Upd(1, Some(0)), Step::Upd(0, None)],
+    &[Step::Upd(0, Some(1)), Step::Upd(2, Some(0)), Step::Upd(0, Some(2)), Step::Upd(1, Some(0)), Step::Upd(0, None), Step::Upd(2, None)],
+];
+/// harmless spellings of one path: all of them name the same file
+fn spell(r: &mut Rng, p: &str) -> String {
+    match r.below(12) {
+        0 => format!("./{p}"),
+        1 => p.replacen('/', "//", 1),
+        2 => p.replacen('/', "/./", 1),
+        3 => format!(" {p}\u{a0}"),
+        4 => format!("\u{2003}{p}\t"),
+        _ => p.to_string(),
+    }
+}
+fn utf8_text(r: &mut Rng, min_lines: usize) -> Vec<u8> {
+    for _ in 0..40 {
+        let t = gen_text(r);
+        if let Ok(s) = std::str::from_utf8(&t) {
+            if text_lines(s).len() >= min_lines && !t.is_empty() {
+                return t;
+            }
+        }
+    }
+    b"alpha\nbeta\ngamma\n".to_vec()
+}
+fn gen_chain_case(r: &mut Rng) -> Case {
+    let mut init = gen_init(r);
+    // three distinct plain paths
+    let cands: Vec<&str> = PATHS.iter().filter(|p| **p != ".rip/note").cloned().collect();
+    let mut names: Vec<String> = vec![];
+    while names.len() < 3 {
+        let p = r.pick(&cands[..]).to_string();
+        if !names.contains(&p) {
+            names.push(p);
+        }
+    }
+    let template: Option<&[Step]> = if r.chance(3, 5) { Some(*r.pick(&CHAIN_TEMPLATES[..])) } else { None };
+    // which of the three must be there at the start: the first section on a path decides (source of an
+    // update / delete: present; added or moved onto: absent); the random walk starts from P present, Q absent
+    let mut need: [Option<bool>; 3] = [None, None, None];
+    match template {
+        Some(t) => {
+            for st in t {
+                match *st {
+                    Step::Upd(i, m) => {
+                        need[i].get_or_insert(true);
+                        if let Some(j) = m {
+                            need[j].get_or_insert(false);
+                        }
+                    }
+                    Step::Add(i) => {
+                        need[i].get_or_insert(false);
+                    }
+                    Step::Del(i) => {
+                        need[i].get_or_insert(true);
+                    }
+                }
+            }
+        }
+        None => {
+            need[0] = Some(true);
+            need[1] = Some(false);
+        }
+    }
+    for (i, nm) in names.iter().enumerate() {
+        let c = norm(nm).unwrap();
+        // one time in thirty the workspace is left as it came (a section that cannot be performed: atomicity)
+        if r.chance(1, 30) {
+            continue;
+        }
+        match need[i] {
+            Some(true) => {
+                for k in 1..c.len() {
+                    init.insert(c[..k].to_vec(), Node::Dir);
+                }
+                init.insert(c, Node::File(utf8_text(r, 2)));
+            }
+            Some(false) => {
+                init.remove(&c);
+            }
+            None => {}
+        }
+    }
+    let mut sim = Sim::from_listing(&init);
+    let comps: Vec<Comps> = names.iter().map(|n| norm(n).unwrap()).collect();
+    // every text each path has held so far in this patch (initial one included; the text written just
+    // before a move away included)
+    let mut history: Vec<Vec<String>> = comps.iter().map(|c| sim.files.get(c).and_then(|b| String::from_utf8(b.clone()).ok()).into_iter().collect()).collect();
+    let mut lines = vec!["*** Begin Patch".to_string()];
+    let mut intended: Vec<PatchOp> = vec![];
+    let mut stale_used = false;
+    let walk_len = r.range(3, 8) as usize;
+    let mut k = 0usize;
+    loop {
+        let step = match template {
+            Some(t) => {
+                if k >= t.len() {
+                    break;
+                }
+                t[k]
+            }
+            None => {
+                if k >= walk_len {
+                    break;
+                }
+                let i = r.below(3) as usize;
+                let present: Vec<usize> = (0..3).filter(|j| sim.files.contains_key(&comps[*j])).collect();
+                let absent: Vec<usize> = (0..3).filter(|j| !sim.files.contains_key(&comps[*j])).collect();
+                if sim.files.contains_key(&comps[i]) {
+                    match r.below(20) {
+                        0..=7 => Step::Upd(i, None),
+                        8..=14 if !absent.is_empty() => Step::Upd(i, Some(*r.pick(&absent[..]))),
+                        8..=14 => Step::Upd(i, None),
+                        _ => Step::Del(i),
+                    }
+                } else if !present.is_empty() && r.chance(2, 5) {
+                    Step::Upd(*r.pick(&present[..]), Some(i))
+                } else {
+                    Step::Add(i)
+                }
+            }
+        };
+        k += 1;
+        // now and then an unrelated section in between
+        if r.chance(1, 14) {
+            let (ls, op) = gen_op(r, &mut sim);
+            lines.extend(ls);
+            intended.push(op);
+        }
+        match step {
+            Step::Add(i) => {
+                let pv = spell(r, &names[i]);
+                lines.push(format!("*** Add File: {pv}"));
+                // the new content: fresh, or a variation of a text the path held before (then a hunk written
+                // for the one may also match the other)
+                let mut content_lines: Vec<String> = if !history[i].is_empty() && r.chance(1, 2) {
+                    let mut v = text_lines(r.pick(&history[i][..]).as_str());
+                    if !v.is_empty() {
+                        let j = r.below(v.len() as u64) as usize;
+                        match r.below(3) {
+                            0 => v[j] = r.pick(&WORDS[..]).to_string(),
+                            1 => v.insert(j, r.pick(&WORDS[..]).to_string()),
+                            _ => {
+                                v.remove(j);
+                            }
+                        }
+                    }
+                    v
+                } else {
+                    (0..r.range(1, 4)).map(|_| r.pick(&WORDS[..]).to_string()).collect()
+                };
+                content_lines.retain(|l| !l.ends_with('\r') && !l.contains('\n'));
+                let mut content = String::new();
+                for w in &content_lines {
+                    lines.push(format!("+{w}"));
+                    content.push_str(w);
+                    content.push('\n');
+                }
+                if content == "\n" {
+                    content.clear();
+                }
+                let op = PatchOp::AddFile { path: doc_path(&pv), content };
+                let _ = spec_op(&mut sim, &op);
+                intended.push(op);
+            }
+            Step::Del(i) => {
+                let pv = spell(r, &names[i]);
+                lines.push(format!("*** Delete File: {pv}"));
+                let op = PatchOp::DeleteFile { path: doc_path(&pv) };
+                let _ = spec_op(&mut sim, &op);
+                intended.push(op);
+            }
+            Step::Upd(i, mv) => {
+                let pv = spell(r, &names[i]);
+                lines.push(format!("*** Update File: {pv}"));
+                let moved_to = mv.map(|j| {
+                    let qv = spell(r, &names[j]);
+                    lines.push(format!("*** Move to: {qv}"));
+                    doc_path(&qv)
+                });
+                let cur: Option<String> = sim.files.get(&comps[i]).map(|b| String::from_utf8_lossy(b).to_string());
+                // the text the hunks are written for: what the path holds now; one time in five something it held earlier
+                let older: Vec<&String> = history[i].iter().filter(|t| Some(*t) != cur.as_ref()).collect();
+                let base = if !older.is_empty() && r.chance(1, 5) {
+                    stale_used = true;
+                    (*r.pick(&older[..])).clone()
+                } else {
+                    cur.clone().unwrap_or_default()
+                };
+                let hunks = if r.chance(11, 12) { gen_hunks_applying(r, &base, &mut lines) } else { gen_hunks(r, &text_lines(&base), &mut lines) };
+                if let Some(t) = &cur {
+                    let hs: Vec<(Vec<String>, Vec<String>)> = hunks.iter().map(|h| (h.before.clone(), h.after.clone())).collect();
+                    if let Some(out) = spec_hunks(t, &hs) {
+                        history[i].push(out);
+                    }
+                }
+                let op = PatchOp::UpdateFile { path: doc_path(&pv), moved_to, hunks };
+                let _ = spec_op(&mut sim, &op);
+                intended.push(op);
+            }
+        }
+        for (j, c) in comps.iter().enumerate() {
+            if let Some(t) = sim.files.get(c).and_then(|b| String::from_utf8(b.clone()).ok()) {
+                if history[j].last() != Some(&t) {
+                    history[j].push(t);
+                }
+            }
+        }
+    }
+    let mut tag = String::from(if template.is_some() { "same-path-chain" } else { "same-path-walk" });
+    if stale_used {
+        tag.push_str("-stale");
+    }
+    // one time in five a section that cannot be performed at the end: everything above is rolled back
+    if r.chance(1, 5) {
+        lines.push("*** Delete File: missing.txt".into());
+        intended.push(PatchOp::DeleteFile { path: "missing.txt".into() });
+        tag.push_str("-fail");
+    }
+    lines.push("*** End Patch".into());
+    let eol = if r.chance(1, 8) { "\r\n" } else { "\n" };
+    let mut patch = lines.join(eol);
+    if r.chance(1, 2) {
+        patch.push_str(eol);
+    }
+    Case { init, patch, tag, intended: clean_intended(Some(intended)), intended_paths: true }
+}
+/// str::lines drops a `\r` before the line break: a payload line ending in `\r` is not what the text says
+fn clean_intended(intended: Option<Vec<PatchOp>>) -> Option<Vec<PatchOp>> {
+    let ends_cr = |l: &String| l.ends_with('\r');
+    let v = intended?;
+    let bad = v.iter().any(|op| match op {
+        PatchOp::AddFile { content, .. } => content.split('\n').any(|l| l.ends_with('\r')),
+        PatchOp::UpdateFile { hunks, .. } => hunks.iter().any(|h| h.before.iter().any(ends_cr) || h.after.iter().any(ends_cr)),
+        _ => false,
+    });
+    if bad {
+        None
+    } else {
+        Some(v)
     }
 }
 fn mutate(r: &mut Rng, lines: &mut Vec<String>) -> &'static str {
@@ -621,6 +997,10 @@ fn mutate(r: &mut Rng, lines: &mut Vec<String>) -> &'static str {
     }
 }
 fn gen_case(r: &mut Rng) -> Case {
+    // a quarter of the cases: the same-path family
+    if r.chance(1, 4) {
+        return gen_chain_case(r);
+    }
     let init = gen_init(r);
     let mode = r.below(20);
     if mode == 0 {
@@ -631,31 +1011,40 @@ fn gen_case(r: &mut Rng) -> Case {
         if r.chance(2, 3) {
             ls.insert(0, "*** Begin Patch".into());
         }
-        return Case { init, patch: ls.join("\n"), tag: "malformed".into(), intended: None };
+        return Case { init, patch: ls.join("\n"), tag: "malformed".into(), intended: None, intended_paths: false };
     }
     let mut sim = Sim::from_listing(&init);
     let mut lines = vec!["*** Begin Patch".to_string()];
     let mut tag = String::from("valid");
     let mut intended: Option<Vec<PatchOp>> = Some(vec![]);
+    let tail_hunk = || vec![rip_workspace::PatchHunk { before: vec![], after: vec!["tail".to_string()] }];
     if mode <= 3 {
         // file replaced by a directory inside one patch (delete or move away, then add below it)
         let files: Vec<Comps> = sim.files.keys().cloned().collect();
         if !files.is_empty() {
             let f = show_comps(r.pick(&files));
+            let v = intended.as_mut().unwrap();
             if r.chance(2, 3) {
                 lines.push(format!("*** Delete File: {f}"));
-                let _ = spec_op(&mut sim, &PatchOp::DeleteFile { path: f.clone().into() });
+                let op = PatchOp::DeleteFile { path: f.clone().into() };
+                let _ = spec_op(&mut sim, &op);
+                v.push(op);
             } else {
                 lines.push(format!("*** Update File: {f}"));
                 lines.push("*** Move to: moved/away.txt".into());
                 lines.push("@@".into());
                 lines.push("+tail".into());
+                let op = PatchOp::UpdateFile { path: f.clone().into(), moved_to: Some("moved/away.txt".into()), hunks: tail_hunk() };
+                let _ = spec_op(&mut sim, &op);
+                v.push(op);
             }
             let sub = if r.chance(1, 2) { format!("{f}/inner.txt") } else { format!("{f}/deep/er/inner.txt") };
             lines.push(format!("*** Add File: {sub}"));
             lines.push("+inner".into());
+            let op = PatchOp::AddFile { path: sub.into(), content: "inner\n".into() };
+            let _ = spec_op(&mut sim, &op);
+            v.push(op);
             tag = "file-to-dir".into();
-            intended = None;
         }
     }
     let n = if (4..=7).contains(&mode) { r.range(3, 7) } else { r.range(1, 4) };
@@ -667,15 +1056,20 @@ fn gen_case(r: &mut Rng) -> Case {
         }
     }
     if (4..=7).contains(&mode) {
-        intended = None;
         // deep rollback: several operations that apply (same paths re-used), then one that cannot
         tag = "deep-rollback".into();
+        let v = intended.as_mut().unwrap();
+        let x_hunk = |before: Vec<String>| vec![rip_workspace::PatchHunk { before, after: vec!["x".to_string()] }];
         match r.below(5) {
-            0 => lines.push("*** Delete File: missing.txt".into()),
+            0 => {
+                lines.push("*** Delete File: missing.txt".into());
+                v.push(PatchOp::DeleteFile { path: "missing.txt".into() });
+            }
             1 => {
                 lines.push("*** Update File: missing.txt".into());
                 lines.push("@@".into());
                 lines.push("+x".into());
+                v.push(PatchOp::UpdateFile { path: "missing.txt".into(), moved_to: None, hunks: x_hunk(vec![]) });
             }
             2 => {
                 let files: Vec<Comps> = sim.files.keys().cloned().collect();
@@ -685,8 +1079,10 @@ fn gen_case(r: &mut Rng) -> Case {
                     lines.push("@@".into());
                     lines.push("-this line is nowhere".into());
                     lines.push("+x".into());
+                    v.push(PatchOp::UpdateFile { path: f.into(), moved_to: None, hunks: x_hunk(vec!["this line is nowhere".to_string()]) });
                 } else {
                     lines.push("*** Delete File: missing.txt".into());
+                    v.push(PatchOp::DeleteFile { path: "missing.txt".into() });
                 }
             }
             3 => {
@@ -698,14 +1094,18 @@ fn gen_case(r: &mut Rng) -> Case {
                     lines.push(format!("*** Move to: {g}"));
                     lines.push("@@".into());
                     lines.push("+tail".into());
+                    v.push(PatchOp::UpdateFile { path: f.into(), moved_to: Some(g.into()), hunks: tail_hunk() });
                 } else {
                     lines.push("*** Add File: .rip".into());
                     lines.push("+x".into());
+                    v.push(PatchOp::AddFile { path: ".rip".into(), content: "x\n".into() });
                 }
             }
             _ => {
-                lines.push(format!("*** Add File: d/{}", "N".repeat(256)));
+                let p = format!("d/{}", "N".repeat(256));
+                lines.push(format!("*** Add File: {p}"));
                 lines.push("+x".into());
+                v.push(PatchOp::AddFile { path: p.into(), content: "x\n".into() });
             }
         }
     }
@@ -713,7 +1113,9 @@ fn gen_case(r: &mut Rng) -> Case {
     if r.chance(1, 2) {
         let m = mutate(r, &mut lines);
         tag = format!("{tag}+{m}");
-        intended = None;
+        if m != "none" {
+            intended = None;
+        }
     }
     let eol = if r.chance(1, 8) { "\r\n" } else { "\n" };
     let mut patch = lines.join(eol);
@@ -724,52 +1126,51 @@ fn gen_case(r: &mut Rng) -> Case {
         patch.push_str("trailing garbage after the footer\n");
         intended = None;
     }
-    // str::lines drops a `\r` before the line break: a payload line ending in `\r` is not what the text says
-    let ends_cr = |l: &String| l.ends_with('\r');
-    if let Some(v) = &intended {
-        let bad = v.iter().any(|op| match op {
-            PatchOp::AddFile { content, .. } => content.split('\n').any(|l| l.ends_with('\r')),
-            PatchOp::UpdateFile { hunks, .. } => hunks.iter().any(|h| h.before.iter().any(ends_cr) || h.after.iter().any(ends_cr)),
-            _ => false,
-        });
-        if bad {
-            intended = None;
-        }
-    }
-    Case { init, patch, tag, intended }
+    let intended = clean_intended(intended);
+    Case { init, patch, tag, intended_paths: intended.is_some(), intended }
 }
 
 fn intended_json(ops: &[PatchOp]) -> serde_json::Value {
     serde_json::Value::Array(
         ops.iter()
             .map(|op| match op {
-                PatchOp::AddFile { content, .. } => json!({"add": content}),
-                PatchOp::DeleteFile { .. } => json!({"delete": true}),
-                PatchOp::UpdateFile { moved_to, hunks, .. } => json!({"update": hunks.iter().map(|h| json!({"before": h.before, "after": h.after})).collect::<Vec<_>>(), "moved": moved_to.is_some()}),
-            })
-            .collect(),
-    )
-}
-fn intended_from_json(v: &serde_json::Value) -> Option<Vec<PatchOp>> {
-    let strs = |x: &serde_json::Value| -> Vec<String> { x.as_array().map(|a| a.iter().map(|s| s.as_str().unwrap_or("").to_string()).collect()).unwrap_or_default() };
-    let arr = v.as_array()?;
-    Some(
-        arr.iter()
-            .map(|o| {
-                if let Some(c) = o.get("add") {
-                    PatchOp::AddFile { path: "x".into(), content: c.as_str().unwrap_or("").to_string() }
-                } else if let Some(hs) = o.get("update") {
-                    PatchOp::UpdateFile {
-                        path: "x".into(),
-                        moved_to: if o["moved"].as_bool().unwrap_or(false) { Some("y".into()) } else { None },
-                        hunks: hs.as_array().map(|a| a.iter().map(|h| rip_workspace::PatchHunk { before: strs(&h["before"]), after: strs(&h["after"]) }).collect()).unwrap_or_default(),
+                PatchOp::AddFile { path, content } => json!({"add": content, "path": p2s(path)}),
+                PatchOp::DeleteFile { path } => json!({"delete": true, "path": p2s(path)}),
+                PatchOp::UpdateFile { path, moved_to, hunks } => {
+                    let mut o = json!({"update": hunks.iter().map(|h| json!({"before": h.before, "after": h.after})).collect::<Vec<_>>(), "moved": moved_to.is_some(), "path": p2s(path)});
+                    if let Some(m) = moved_to {
+                        o["to"] = json!(p2s(m));
                     }
-                } else {
-                    PatchOp::DeleteFile { path: "x".into() }
+                    o
                 }
             })
             .collect(),
     )
+}
+/// (operations, whether they carry the document's paths)
+fn intended_from_json(v: &serde_json::Value) -> Option<(Vec<PatchOp>, bool)> {
+    let strs = |x: &serde_json::Value| -> Vec<String> { x.as_array().map(|a| a.iter().map(|s| s.as_str().unwrap_or("").to_string()).collect()).unwrap_or_default() };
+    let arr = v.as_array()?;
+    let with_paths = arr.iter().all(|o| o.get("path").and_then(|p| p.as_str()).is_some() && (!o["moved"].as_bool().unwrap_or(false) || o.get("to").and_then(|p| p.as_str()).is_some()));
+    let path = |o: &serde_json::Value| -> std::path::PathBuf { o.get("path").and_then(|p| p.as_str()).unwrap_or("x").into() };
+    Some((
+        arr.iter()
+            .map(|o| {
+                if let Some(c) = o.get("add") {
+                    PatchOp::AddFile { path: path(o), content: c.as_str().unwrap_or("").to_string() }
+                } else if let Some(hs) = o.get("update") {
+                    PatchOp::UpdateFile {
+                        path: path(o),
+                        moved_to: if o["moved"].as_bool().unwrap_or(false) { Some(o.get("to").and_then(|p| p.as_str()).unwrap_or("y").into()) } else { None },
+                        hunks: hs.as_array().map(|a| a.iter().map(|h| rip_workspace::PatchHunk { before: strs(&h["before"]), after: strs(&h["after"]) }).collect()).unwrap_or_default(),
+                    }
+                } else {
+                    PatchOp::DeleteFile { path: path(o) }
+                }
+            })
+            .collect(),
+        with_paths,
+    ))
 }
 /// same kind and same payload (add content / move flag / hunks), paths not compared (spelling variants)
 fn same_payload(a: &PatchOp, b: &PatchOp) -> bool {
@@ -780,18 +1181,40 @@ fn same_payload(a: &PatchOp, b: &PatchOp) -> bool {
         _ => false,
     }
 }
+/// the paths, byte for byte as the document spells them (after trimming)
+fn same_paths(a: &PatchOp, b: &PatchOp) -> bool {
+    match (a, b) {
+        (PatchOp::AddFile { path: p, .. }, PatchOp::AddFile { path: q, .. }) | (PatchOp::DeleteFile { path: p }, PatchOp::DeleteFile { path: q }) => p.as_os_str() == q.as_os_str(),
+        (PatchOp::UpdateFile { path: p, moved_to: m, .. }, PatchOp::UpdateFile { path: q, moved_to: n, .. }) => p.as_os_str() == q.as_os_str() && m.as_ref().map(|x| x.as_os_str()) == n.as_ref().map(|x| x.as_os_str()),
+        _ => false,
+    }
+}
+fn payload_only(mut v: serde_json::Value) -> serde_json::Value {
+    if let Some(a) = v.as_array_mut() {
+        for o in a {
+            if let Some(m) = o.as_object_mut() {
+                m.remove("path");
+                m.remove("to");
+            }
+        }
+    }
+    v
+}
 fn case_json(c: &Case) -> serde_json::Value {
     match &c.intended {
-        Some(ops) => json!({"init": listing_json(&c.init), "patch": c.patch, "tag": c.tag, "intended": intended_json(ops)}),
+        Some(ops) if c.intended_paths => json!({"init": listing_json(&c.init), "patch": c.patch, "tag": c.tag, "intended": intended_json(ops)}),
+        Some(ops) => json!({"init": listing_json(&c.init), "patch": c.patch, "tag": c.tag, "intended": payload_only(intended_json(ops))}),
         None => json!({"init": listing_json(&c.init), "patch": c.patch, "tag": c.tag}),
     }
 }
 fn case_from_json(v: &serde_json::Value) -> Case {
+    let intended = v.get("intended").and_then(intended_from_json);
     Case {
         init: listing_from_json(&v["init"]),
         patch: v["patch"].as_str().unwrap_or("").to_string(),
         tag: v["tag"].as_str().unwrap_or("corpus").to_string(),
-        intended: v.get("intended").and_then(intended_from_json),
+        intended_paths: intended.as_ref().map(|x| x.1).unwrap_or(false),
+        intended: intended.map(|x| x.0),
     }
 }
 fn corpus(dir: &std::path::Path) -> Vec<Case> {
@@ -893,6 +1316,7 @@ fn main() {
             }
             Ok(o) => {
                 res.bump(&format!("outcome={}", match o.code { 0 => "ok", 2 => "err-notfound", 3 => "err-exists", 4 => "err-invalid-data", _ => "err-os" }));
+                res.bump(&format!("family_outcome={}:{}", c.tag.split('+').next().unwrap_or(""), if c.tag.contains('+') && !c.tag.ends_with("+none") { "mutated" } else if o.code == 0 { "ok" } else { "refused" }));
                 if let Some((what, class)) = &o.viol {
                     res.oracle_violations.push(OracleViolation { case_id: i as i64, what: what.clone(), class: class.clone(), replay: case_json(c) });
                 }
